@@ -6,6 +6,7 @@ Emits lean/Tickit/Gen/WinFocusSrc.lean:
   * `initCursor…`   — the cursor record `init_window` establishes;
   * `fixes`         — which of the repairs proposed by this engine the working tree carries (read off the source text),
                       so that the model follows the tree being checked;
+  * `termResizeAsModelled` — `on_term_resize` has the shape the model transcribes;
   * `restoreShape`  — the shape of `_do_restore`'s walk and condition, as booleans the theorems name.
 """
 import re
@@ -97,6 +98,14 @@ def run(ctx):
     if ("&&child&&" not in first_if) != ("TICKIT_FOCUSEV_OUT" in fg):
         info["untranslatable"].append("winfocus:_focus_gained partly repaired")
 
+    # ---- on_term_resize: resize of the root window, exposes of the area gained; repaired: a restore request
+    tr = norm(body_of(w, "on_term_resize") or "")
+    if not tr: info["untranslatable"].append("winfocus:on_term_resize")
+    resize_shape = ("tickit_window_resize(win,info->lines,info->cols);" in tr and
+                    "if(info->lines>oldlines){TickitRectdamage={.top=oldlines,.left=0,.lines=info->lines-oldlines,.cols=info->cols,};tickit_window_expose(win,&damage);}" in tr and
+                    "if(info->cols>oldcols){TickitRectdamage={.top=0,.left=oldcols,.lines=oldlines,.cols=info->cols-oldcols,};tickit_window_expose(win,&damage);}" in tr)
+    resize_restore = "_request_restore(root);" in tr
+
     # ---- repairs of other engines that show in this engine's observations (the rectangles flush hands to the root)
     fl = norm(body_of(w, "tickit_window_flush") or "")
     flush_skips = "if(!root_window->is_visible)continue;" in fl
@@ -113,8 +122,10 @@ def run(ctx):
     body += "def initCursorLine : Int := %d\ndef initCursorCol : Int := %d\ndef initCursorShape : Int := %d\ndef initCursorVisible : Bool := %s\ndef initCursorBlink : Int := %d\n" % (
         ic["line"], ic["col"], ic["shape"], b(ic["visible"]), ic["blink"])
     body += "/-- the repairs of fixes/C15_*.patch present in the working tree -/\n"
-    body += "def fixes : Tickit.WinFocus.Fixes := { hiddenRoot := %s, chainRestore := %s, focusEvents := %s, flushSkipsHiddenRoot := %s, flushClipsDamage := %s }\n" % (
-        b(hidden_root), b(chain_restore), b(focus_events), b(flush_skips), b(flush_clips))
+    body += "def fixes : Tickit.WinFocus.Fixes := { hiddenRoot := %s, chainRestore := %s, focusEvents := %s, flushSkipsHiddenRoot := %s, flushClipsDamage := %s, resizeRestore := %s }\n" % (
+        b(hidden_root), b(chain_restore), b(focus_events), b(flush_skips), b(flush_clips), b(resize_restore))
+    body += "/-- `on_term_resize` resizes the root window and exposes the lines and the columns gained, as the model transcribes -/\n"
+    body += "def termResizeAsModelled : Bool := %s\n" % b(resize_shape)
     body += "/-- `_do_restore` walks `focused_child` from the root and stops at the first invisible window or missing link -/\n"
     body += "def restoreWalkAsModelled : Bool := %s\n" % b(walk_ok)
     body += "/-- the conjuncts of the condition under which `_do_restore` shows the cursor -/\n"
@@ -122,5 +133,6 @@ def run(ctx):
     body += "end Tickit.Gen.WinFocusSrc\n"
     write("WinFocusSrc", body)
     info["winfocus"] = {"fixes": {"hiddenRoot": hidden_root, "chainRestore": chain_restore, "focusEvents": focus_events,
-                                  "flushSkipsHiddenRoot": flush_skips, "flushClipsDamage": flush_clips},
+                                  "flushSkipsHiddenRoot": flush_skips, "flushClipsDamage": flush_clips,
+                                  "resizeRestore": resize_restore},
                         "fields": len(fields), "walk": walk_ok}
